@@ -15,7 +15,7 @@ from props import cons as C
 from props import textcmp as T
 
 TEXTS = ['a ', 'padded   ', ' lead', 'tab\t', 'a', 'bb', "q'uote", 'double"q', 'back\\slash', 'é', '雪だるま', 'new\nline', 'x y', 'ccc', '12', 'A1', 'percent%',
-         "it's", "''", 'semi;colon', 'tab\t', 'z' * 30, 'line\u2028sep', 'para\u2029sep', 'next\x85line', 'cr\rhere', '', '']   # incl. the empty string (not NULL)
+         "it's", "''", 'semi;colon', 'tab\t', 'z' * 30, 'line\u2028sep', 'para\u2029sep', 'next\x85line', 'cr\rhere', '', '', 'srv\\data', 'nas\\data', 'srv\\data']   # incl. the empty string (not NULL)
 F_TYPES = 'c08-declared-type-names'
 F_DATES = 'c08-date-formats'
 F_COLNAME = 'c08-quoted-column-name'
@@ -42,7 +42,7 @@ def gen_table(rng):
                 cells.append(rng.choice([0, 1]))
             else:
                 cells.append(rng.choice(['2020-01-02 03:04:05', '1999-12-31 23:59:59', '2021-06-07 00:00:00']))
-        cols.append(('c%d' % i if rng.random() < 0.7 else rng.choice(['my col', 'order', 'é']) + str(i), k, cells))
+        cols.append(('c%d' % i if rng.random() < 0.7 else rng.choice(['my col', 'order', 'é', '#items', ' pad ']) + str(i), k, cells))
     return nrows, cols
 
 
